@@ -502,8 +502,8 @@ func genC18(r *rand.Rand, tier string) []Case {
 func init() {
 	register(&Prop{
 		ID: "C18", Num: 18,
-		Gen: genC18,
-		New: func() Case { return &c18Case{} },
+		Gen:  genC18,
+		New:  func() Case { return &c18Case{} },
 		Rule: "each case = one child process of the race-detector build with GOMAXPROCS in {2,4,16}: 3-8 goroutines against ONE handle - (mmap) ReadNextAt on every record offset and SeekNext on random offsets of a RecordIO file under each compression (none/gzip/snappy/lzw), payloads 0-5000 bytes incl. embedded record markers; (table) Get/Contains of present and absent keys, ScanRange, ScanStartingAt and full Scan on one table reader under each data compression; (db) Put/Get/Delete of goroutine-owned keys plus Gets of constant keys on one SimpleDB with tiny memstores and a 1 ms background compactor. Every answer is compared with the single-threaded answer of the same call (readers) or the goroutine's own reference map (db); race detector reports, panics, crashes and hangs are failures. Non-trivial: >=100 calls completed.",
 	})
 }
